@@ -101,6 +101,18 @@ Theorem load_order_free : forall b b' def load es load' es',
 Proof. exact load_order_free_lemma. Qed.
 Print Assumptions load_order_free.
 
+(* several calls on the same bus: each result is the function of (bus, that call's default) alone,
+   whatever was asked before *)
+Theorem load_call_independent : forall b defs i d,
+  nth_error defs i = Some d -> nth_error (session b defs) i = Some (calculate_bus_load b d).
+Proof. exact load_call_independent_lemma. Qed.
+Print Assumptions load_call_independent.
+
+Theorem session_prefix_free : forall b pre pre' d,
+  last (session b (pre ++ [d])) (BLErr ErrIsZero) = last (session b (pre' ++ [d])) (BLErr ErrIsZero).
+Proof. exact session_prefix_free_lemma. Qed.
+Print Assumptions session_prefix_free.
+
 (* Remark over IEEE binary64 (Flocq): accumulating three rates of the model's domain in two
    different (map) orders gives two different float64 totals, one unit in the last place apart.
    The float total is therefore determined only up to reassociation; the property is claimed on
